@@ -6,6 +6,7 @@ import (
 	"errors"
 	"fmt"
 	"os"
+	"sort"
 	"strconv"
 	"strings"
 
@@ -417,8 +418,14 @@ func parseGFFFile(file string) (coords []extractSubSequence, err error) {
 		l, e = utils.Readln(r)
 	}
 
-	for _, coord := range coordsMap {
-		coords = append(coords, *coord)
+	// Genes are returned in sorted order (the iteration order of a map is random)
+	genenames := make([]string, 0, len(coordsMap))
+	for name := range coordsMap {
+		genenames = append(genenames, name)
+	}
+	sort.Strings(genenames)
+	for _, name := range genenames {
+		coords = append(coords, *coordsMap[name])
 	}
 
 	return
